@@ -76,7 +76,11 @@ impl Worker {
 
                     println!("Worker {} got a job; executing.", id);
 
-                    job();
+                    // a panicking job must not take its worker thread down with it
+                    let boxed_run = std::panic::catch_unwind(std::panic::AssertUnwindSafe(job));
+                    if boxed_run.is_err() {
+                        eprintln!("Worker {} -> job panicked", id);
+                    }
                     #[cfg(rws_verif)]
                     crate::verif_hooks::hit(crate::verif_hooks::Point::Finished, id);
                 }
